@@ -227,9 +227,11 @@ class EffectDomain(DefaultDomain):
         return TOP
 
     def compare(self, op, left, right):
-        if isinstance(op, (ast.In, ast.NotIn)) and isinstance(right, tuple) and right[:1] == ("kwdict",) and isinstance(left, tuple) and left[:1] == ("const",):
-            hit = any(k == left[1] for k, _ in right[1])
-            return "T" if hit == isinstance(op, ast.In) else "F"
+        if isinstance(op, (ast.In, ast.NotIn)) and isinstance(right, tuple) and right[:1] == ("kwdict",):
+            ok_, key_ = self._dkey(left)
+            if ok_:
+                hit = any(k == key_ for k, _ in right[1])
+                return "T" if hit == isinstance(op, ast.In) else "F"
         if isinstance(op, (ast.In, ast.NotIn)) and isinstance(right, tuple) and right[:1] == ("table",):
             ok, k = self._py(left)
             if ok:
@@ -258,6 +260,9 @@ class EffectDomain(DefaultDomain):
         okr, pr = self._py(right)
         if okl and okr:
             try:
+                if isinstance(op, (ast.Is, ast.IsNot)) and (isinstance(pl, (str, bool, type(None))) or isinstance(pr, (str, bool, type(None)))) and type(pl) is type(pr):
+                    # identity of constants that come from one literal / one module constant: that of equal values
+                    return "T" if (pl == pr) == isinstance(op, ast.Is) else "F"
                 res = {ast.Eq: lambda: pl == pr, ast.NotEq: lambda: pl != pr, ast.Lt: lambda: pl < pr, ast.LtE: lambda: pl <= pr, ast.Gt: lambda: pl > pr,
                        ast.GtE: lambda: pl >= pr, ast.In: lambda: pl in pr, ast.NotIn: lambda: pl not in pr}.get(type(op))
                 if res is not None:
@@ -303,6 +308,12 @@ class EffectDomain(DefaultDomain):
     def _dkey(cls, v):
         if isinstance(v, tuple) and len(v) == 2 and v[0] == "const":
             return True, v[1]
+        if v in (TRUE, FALSE, NONE):
+            return True, {TRUE: True, FALSE: False, NONE: None}[v]
+        if isinstance(v, tuple) and v[:1] == ("tuple",):
+            ok_, p_ = cls._py(v)
+            if ok_:
+                return True, p_   # a tuple of constants is itself a constant key
         if isinstance(v, tuple) and v and v[0] in cls.IDENTITY_TAGS:
             return True, ("#", v)
         return False, None
@@ -311,7 +322,7 @@ class EffectDomain(DefaultDomain):
     def _dkey_abs(k):
         if isinstance(k, tuple) and len(k) == 2 and k[0] == "#":
             return k[1]
-        return ("const", k)
+        return EffectDomain._abs(k)
 
     def subscript_multi(self, base, idx, st, fr):
         """d[k] on an exact dict whose key is known to be absent raises KeyError."""
